@@ -347,6 +347,12 @@ _FLAVOUR = st.sampled_from(["mult", "mult", "free"])
 @st.composite
 def _fourier_cases(draw):
     p = draw(_PAIRS_FOURIER)
+    if draw(st.integers(0, 19)) == 11:
+        # decimation factors whose reciprocal is not exact in double precision (k*fl(1/k) != 1: 49, 98, 103, 107): the library
+        # forms the new length as fl(1/k)*npts, which lands just below the integer npts/k
+        k = draw(st.sampled_from([49, 98, 103, 107]))
+        base = 2.0 ** -draw(st.integers(3, 9))
+        p = {"dt": base, "target": base * k, "fam": "inexact-reciprocal"}
     dt, target = p["dt"], p["target"]
     mode, k = _ref_factor(dt, target)
     nmin = max(3, _min_npts(dt, target))
@@ -405,7 +411,8 @@ def _tones_exact_grid(comps, m_list, n):
 
 
 @clause(CLAUSES, "fourier-rule", _fourier_cases(), quick=2000, thorough=10000,
-        rule="(dt, target) pairs as in interp-rule (k <= 30); npts from the duration precondition up to 1500 (2500 thorough), for "
+        rule="(dt, target) pairs as in interp-rule (k <= 30, plus 1 case in 20 decimating by 49 / 98 / 103 / 107, whose reciprocals are "
+             "inexact in double precision); npts from the duration precondition up to 1500 (2500 thorough), for "
              "decimation two thirds of the cases npts = k*q (half of them q even) so that the new grid is commensurate; 1-3 cosine "
              "components, the first with index m = min(M, 1+floor(mu*M)), the others m = min(M, floor(mu*(M+1))) (mu in [0,1], both "
              "ends drawn), M = largest index below the old and the new Nyquist index, amplitude +-[1e-3,1e3], phase [0,2pi); even in {T,F}; three call forms; non-trivial = returned "
